@@ -1,5 +1,5 @@
 (* C14 — remove / delete (with :count and :from-end), substitute, remove-duplicates: M = S on the guard. *)
-From C14 Require Import Base Model Spec ProofsScan.
+From C14 Require Import Base Model Spec ProofsScan ProofsReverse.
 From Coq Require Import Arith.
 
 (* ---- the index loop of delete.go ------------------------------------------------------------------ *)
@@ -237,7 +237,7 @@ Proof.
       assert (s_start c <= s_end c l)%nat as B1' by (rewrite Hs; exact B1).
       assert (s_end c l <= length l)%nat as B2' by (rewrite Hs; exact B2).
       unfold from_end_wrap. rewrite <- budget_limit. destruct (c_from_end c).
-      - apply delete_backward; assumption.
+      - rewrite go_reverse_is_rev. apply delete_backward; assumption.
       - apply delete_forward; assumption. }
     destruct (c_seq c) eqn:S.
     - cbn [elems]. unfold slice. rewrite !skipn_nil, !firstn_nil. cbn [app].
